@@ -14,6 +14,7 @@ pub fn main(mode: &str, input: &str, output: &str) -> ! {
         "c12" => crate::props::c12::child(&inp),
         "c18" => crate::props::c18::child(&inp),
         "c14mle" => crate::props::c14::child(&inp),
+        "c20" => crate::props::c20::child(&inp),
         _ => {
             eprintln!("unknown child mode {}", mode);
             std::process::exit(2)
